@@ -3,9 +3,11 @@ CONSTANTS
   Cycles = 3
   Lost = {}
   LostKinds = {}
-  MCCtors = {"c.para", "c.headingbm", "c.tbl.2x2", "c.toc", "c.img.png", "c.math.block"}
+  Alias = {}
+  MCCtors = {"c.para", "c.headingbm", "c.tbl.2x2", "c.toc", "c.img.png", "c.math.block", "c.ntbl.d2.2x2", "c.nestedcellpara"}
   MCFeats = {"p.keepNext.on", "p.bold.on", "p.bold.off", "p.format.full", "p.border.all", "p.addbreak", "p.struct.field", "t.nested.d1", "t.merge.h", "t.merge.v", "t.cellimage", "i.fl.tight", "i.alt"}
-  MCSect = {"s.titlepg.on", "s.margins", "s.header.default"}
+  MCSect = {"s.titlepg.on", "s.margins", "s.header.default", "s.header.first", "s.headerpn", "s.footer.default", "s.footer.even"}
+  MCSectMax = 3
   MinF = 0
   MaxF = 0
   SingleCtors = {}
@@ -14,6 +16,6 @@ CONSTANTS
   FocusKinds = {}
   CtxMode = "one"
   PreSaves = {FALSE}
-INVARIANTS Inv_Identity Inv_Silent Inv_Exact Inv_NothingEarly
+INVARIANTS Inv_Identity Inv_Silent Inv_Exact Inv_NothingEarly Inv_AliasKeepsShape
 PROPERTIES Act_SavePure Act_OpenReads
 CHECK_DEADLOCK FALSE
